@@ -332,6 +332,12 @@ class Session(object):
         a = brack([hx(p) for p in ps])
         self.q("parents %d %s" % (w, a)); self.q("children %d %s" % (w, a))
 
+    def r_hierarchy_all(self):
+        m = self.we_map()
+        for w in sorted(m)[:6]:
+            a = brack([hx(p) for p in m[w]])
+            self.q("children %d %s" % (w, a)); self.q("parents %d %s" % (w, a))
+
     def r_welinks(self):
         w, ps = self.pick_we()
         a = brack([hx(p) for p in ps])
@@ -379,13 +385,13 @@ class Session(object):
     WRITES = ["addpage", "addpages", "addlinks", "batch", "create", "delete", "addprefix", "rmprefix", "moveprefix",
               "addrule", "rmrule", "reopen", "clear"]
     READS = ["resolution", "pages", "paginate", "paginatelinks", "mostlinked", "hierarchy", "welinks", "pagelinks",
-             "network", "global", "linksiter", "locate", "metrics", "helpers"]
+             "network", "global", "linksiter", "locate", "metrics", "helpers", "hierarchy_all"]
 
     def run(self, nops):
         p = self.p
         self.init()
         ww = [p.get("w", {}).get(k, DEFAULT_W[k]) for k in self.WRITES]
-        rw = [p.get("r", {}).get(k, 1.0) for k in self.READS]
+        rw = [p.get("r", {}).get(k, 0.0 if k == "hierarchy_all" else 1.0) for k in self.READS]
         for _ in range(nops):
             op = self.r.choices(self.WRITES, ww)[0]
             getattr(self, "w_" + op)()
